@@ -81,7 +81,7 @@ Print Assumptions C17_two_comments_on_the_same_code_give_the_same_assignment.
    line): wherever such a line is put and whatever it says, the assignments read are the same *)
 Theorem C17_comment_lines_inside_a_block_are_inert :
   forall ls1 lead c ls2, all_chars is_space lead = true ->
-    parse_block (ls1 ++ (lead ++ String "#"%char c) :: ls2) = parse_block (ls1 ++ ls2).
+    parse_block (ls1 ++ (String.append lead (String "#"%char c)) :: ls2) = parse_block (ls1 ++ ls2).
 Proof. exact comment_lines_are_inert. Qed.
 Print Assumptions C17_comment_lines_inside_a_block_are_inert.
 
